@@ -1,5 +1,289 @@
-//! Conformance harness for specification-growth module g12 (see /verif/DESIGN.md 12.6).
+//! Conformance harness for specification-growth module G12 (shell functions),
+//! see spec/ShFunctions.tla.
+//!
+//! `yv-g12 replay --in GEN.ndjson --out MISMATCHES.ndjson [--threads T]`
+//!     spec -> impl: every line of GEN is a scenario printed by Gen_Functions
+//!     (script text and what the specification expects).  The script is run by
+//!     the real shell on the simulated OS; standard output, files, exit status,
+//!     the final function table (state inspection through `snap`) and the
+//!     final `typeset -fp` listing are compared; the listing is re-read by a
+//!     fresh shell and must recreate the table.
+//! `yv-g12 api --in API.ndjson --out MISMATCHES.ndjson`
+//!     spec -> impl, call level: operation sequences on the table printed by
+//!     Gen_FunctionSet are replayed on `yash_env::function::FunctionSet`.
+//! `yv-g12 random --n N --out TRACE.ndjson [--threads T]`
+//!     impl -> spec: N seeded random scenarios are rendered, run and recorded
+//!     for Trace_Functions to judge.
+//! `yv-g12 one --in SCEN.json --out TRACE.ndjson`
+//!     one scenario (`{"sc": {...}}`), same record as `random`.
+mod api;
+mod rnd;
+mod run;
+
+use run::{Line, Obs, TabEntry};
+use serde_json::{Value, json};
+use std::collections::BTreeMap;
+use std::io::{BufRead, Write};
+use std::sync::Mutex;
+use std::sync::atomic::{AtomicUsize, Ordering};
+use yvcommon::util::{self, opt, opt_usize};
+
+fn lines(v: &Value) -> Vec<Line> {
+    v.as_array().map(|a| a.iter().map(Line::from_json).collect()).unwrap_or_default()
+}
+
+fn lines_json(ls: &[Line]) -> Value {
+    Value::Array(ls.iter().map(|l| l.json()).collect())
+}
+
+pub fn obs_json(o: &Obs) -> Value {
+    json!({"outcome": o.outcome, "st": o.status, "out": lines_json(&o.out), "fo": lines_json(&o.fo),
+           "fp": lines_json(&o.fp), "listing": o.listing,
+           "tab": o.tab.as_ref().map(|t| t.iter().map(|e| json!({"n": e.n, "ro": e.ro, "disp": e.disp})).collect::<Vec<_>>())})
+}
+
+/// The normal form of the listing the table `tab` must produce.
+fn listing_of(tab: &[(String, bool)]) -> Vec<String> {
+    let mut v = vec![];
+    for (n, ro) in tab {
+        v.push(format!("F {}", n));
+        if *ro {
+            v.push(format!("R {}", n));
+        }
+    }
+    v
+}
+
+/// Checks that hold for every run, whatever the specification says about the
+/// scenario: the final listing is the one the final table must produce
+/// (typeset.md: every function, alphabetical order, `typeset -fr` iff
+/// read-only) and evaluating it recreates the table.
+pub fn self_checks(o: &Obs) -> Option<(String, String)> {
+    let tab = o.tab.as_ref()?;
+    let mut sorted: Vec<(String, bool)> = tab.iter().map(|e| (e.n.clone(), e.ro)).collect();
+    sorted.sort();
+    let want = listing_of(&sorted);
+    let got: Vec<String> = o.listing.iter().map(|l| run::list_line(l)).collect();
+    if want != got {
+        return Some(("listing".into(), format!("final listing {:?}, table demands {:?}", got, want)));
+    }
+    if !tab.is_empty() {
+        let r = run::reread(&o.listing);
+        let mut a = tab.clone();
+        a.sort_by(|x, y| x.n.cmp(&y.n));
+        let mut b = r.tab.clone().unwrap_or_default();
+        b.sort_by(|x, y| x.n.cmp(&y.n));
+        if r.outcome != "completed" || r.tab.is_none() || a != b {
+            return Some(("roundtrip".into(), format!("re-reading the listing {:?} gives {:?} ({}), table was {:?}",
+                o.listing, b, r.outcome, a)));
+        }
+    }
+    None
+}
+
+/// spec -> impl comparison of one scenario; None = conforms.
+fn compare(e: &Value, o: &Obs) -> Option<(String, String)> {
+    if o.outcome != "completed" {
+        return Some(("outcome".into(), o.outcome.clone()));
+    }
+    if e["cls"] != "ok" {
+        return None;
+    }
+    let eo = lines(&e["out"]);
+    if !run::lines_match(&eo, &o.out) {
+        let i = (0..eo.len().max(o.out.len())).find(|&i| match (eo.get(i), o.out.get(i)) {
+            (Some(x), Some(y)) => !run::line_matches(x, y),
+            _ => true,
+        });
+        return Some(("stdout".into(), format!("line {}: expected {:?}, got {:?}", i.unwrap_or(0) + 1,
+            i.and_then(|i| eo.get(i)), i.and_then(|i| o.out.get(i)))));
+    }
+    let est = e["st"].as_i64().unwrap_or(0);
+    if !run::status_matches(est, o.status) {
+        return Some(("status".into(), format!("expected exit status {}, got {}", est, o.status)));
+    }
+    for (name, exp, got) in [("file-o", lines(&e["fo"]), &o.fo), ("file-p", lines(&e["fp"]), &o.fp)] {
+        if !run::lines_match(&exp, got) {
+            return Some((name.into(), format!("expected {:?}, got {:?}", exp, got)));
+        }
+    }
+    let Some(tab) = &o.tab else {
+        return Some(("table".into(), "the EXIT trap did not record the final table".into()));
+    };
+    let etab: Vec<TabEntry> = e["tab"]
+        .as_array()
+        .map(|a| {
+            a.iter()
+                .map(|x| {
+                    let txt = x["txt"].as_str().unwrap_or("");
+                    TabEntry {
+                        n: x["n"].as_str().unwrap_or("").to_string(),
+                        ro: x["ro"].as_bool().unwrap_or(false),
+                        disp: run::display_of(txt).unwrap_or_else(|| format!("<unparsable {}>", txt)),
+                    }
+                })
+                .collect()
+        })
+        .unwrap_or_default();
+    let mut got = tab.clone();
+    got.sort_by(|x, y| x.n.cmp(&y.n));
+    if etab != got {
+        return Some(("table".into(), format!("expected final table {:?}, got {:?}", etab, got)));
+    }
+    // the listing in the order the specification gives (alphabetical)
+    let want = listing_of(&etab.iter().map(|t| (t.n.clone(), t.ro)).collect::<Vec<_>>());
+    let gotl: Vec<String> = o.listing.iter().map(|l| run::list_line(l)).collect();
+    if want != gotl {
+        return Some(("listing".into(), format!("expected final listing {:?}, got {:?}", want, gotl)));
+    }
+    None
+}
+
+#[derive(Default)]
+struct Stats {
+    n: usize,
+    runs: usize,
+    by_class: BTreeMap<String, usize>,
+    by_fam: BTreeMap<String, usize>,
+    nontrivial: usize,
+    mismatches: usize,
+    features: BTreeMap<String, usize>,
+}
+
+impl Stats {
+    fn merge(&mut self, o: Stats) {
+        self.n += o.n;
+        self.runs += o.runs;
+        self.nontrivial += o.nontrivial;
+        self.mismatches += o.mismatches;
+        for (k, v) in o.by_class {
+            *self.by_class.entry(k).or_default() += v;
+        }
+        for (k, v) in o.by_fam {
+            *self.by_fam.entry(k).or_default() += v;
+        }
+        for (k, v) in o.features {
+            *self.features.entry(k).or_default() += v;
+        }
+    }
+    fn json(&self) -> Value {
+        json!({"scenarios": self.n, "shell_runs": self.runs, "by_class": self.by_class, "by_family": self.by_fam,
+               "nontrivial": self.nontrivial, "mismatches": self.mismatches, "features": self.features})
+    }
+}
+
+/// Rules of the specification a scenario of class ok exercises (read off the script text).
+fn features(script: &str, e: &Value) -> Vec<&'static str> {
+    let mut f = vec![];
+    let has = |s: &str| script.contains(s);
+    if has("return") { f.push("return"); }
+    if has("; return") && has("for i in") { f.push("return-in-loop?"); }
+    if has("typeset v=") { f.push("local"); }
+    if has("t=") { f.push("temp-assign"); }
+    if has("unset -f") { f.push("unset-f"); }
+    if has("command unset") { f.push("command-unset"); }
+    if has("typeset -fr") { f.push("readonly"); }
+    if has("| lsf") { f.push("list"); }
+    if has("} >") || has("} <") || has(") >") { f.push("redir-on-def"); }
+    if has("shift;") { f.push("recursion-shift"); }
+    if has("${n-") { f.push("name-expansion"); }
+    if has("| cat") { f.push("pipeline-stage"); }
+    if has("$( ") { f.push("cmdsubst"); }
+    if has("; ( ") || has("{ ( ") || has("() ( ") { f.push("subshell"); }
+    if has("set -- ") { f.push("set-in-function"); }
+    if e["st"].as_i64() == Some(-1) { f.push("shell-exit-nz"); }
+    if e["tab"].as_array().map(|t| t.iter().any(|x| x["ro"] == true)).unwrap_or(false) { f.push("final-ro"); }
+    f
+}
+
+fn strs(v: &Value) -> Vec<String> {
+    v.as_array().map(|a| a.iter().map(|x| x.as_str().unwrap_or("").to_string()).collect()).unwrap_or_default()
+}
+
+fn replay(args: &[String]) {
+    let input = util::open_in(args);
+    let recs: Vec<String> = input.lines().map(|l| l.unwrap()).filter(|l| !l.trim().is_empty()).collect();
+    let threads = opt_usize(args, "--threads", 8);
+    let out = open_out_send(args);
+    let next = AtomicUsize::new(0);
+    let total = Mutex::new(Stats::default());
+    std::thread::scope(|s| {
+        for _ in 0..threads {
+            s.spawn(|| {
+                util::quiet_panics();
+                let mut st = Stats::default();
+                loop {
+                    let i = next.fetch_add(1, Ordering::Relaxed);
+                    if i >= recs.len() {
+                        break;
+                    }
+                    let e: Value = serde_json::from_str(&recs[i]).expect("scenario line");
+                    let script = e["script"].as_str().unwrap_or("").to_string();
+                    let a = strs(&e["args"]);
+                    st.n += 1;
+                    *st.by_class.entry(e["cls"].as_str().unwrap_or("?").to_string()).or_default() += 1;
+                    *st.by_fam.entry(e["fam"].as_str().unwrap_or("?").to_string()).or_default() += 1;
+                    if e["cls"] != "ok" {
+                        // left open by POSIX and the manual, or deeper than the model's call
+                        // bound (possibly unbounded recursion): skipped and counted
+                        continue;
+                    }
+                    let o = run::run_script(&script, &a);
+                    st.runs += 1;
+                    let mut bad = compare(&e, &o);
+                    if bad.is_none() {
+                        if o.tab.as_ref().map(|t| !t.is_empty()).unwrap_or(false) {
+                            st.runs += 1;
+                        }
+                        bad = self_checks(&o);
+                    }
+                    if e["cls"] == "ok" {
+                        if e["out"].as_array().map(|x| x.len() > 1).unwrap_or(false) {
+                            st.nontrivial += 1;
+                        }
+                        for f in features(&script, &e) {
+                            *st.features.entry(f.to_string()).or_default() += 1;
+                        }
+                    }
+                    if let Some((symptom, detail)) = bad {
+                        st.mismatches += 1;
+                        let m = json!({
+                            "key": {"dir": "spec->impl", "fam": e["fam"], "symptom": symptom, "script": script,
+                                    "args": a.join(" ")},
+                            "detail": detail, "exp": e, "obs": obs_json(&o)});
+                        let mut w = out.lock().unwrap();
+                        writeln!(w, "{}", m).unwrap();
+                    }
+                }
+                total.lock().unwrap().merge(st);
+            });
+        }
+    });
+    out.lock().unwrap().flush().unwrap();
+    println!("{}", total.lock().unwrap().json());
+}
+
+pub fn open_out_send(args: &[String]) -> Mutex<Box<dyn Write + Send>> {
+    let p = opt(args, "--out").expect("--out");
+    Mutex::new(Box::new(std::io::BufWriter::with_capacity(1 << 20, std::fs::File::create(p).expect("create --out"))))
+}
+
 fn main() {
-    eprintln!("yv-g12: not implemented yet");
-    std::process::exit(2);
+    let args: Vec<String> = std::env::args().collect();
+    match args.get(1).map(|s| s.as_str()) {
+        Some("replay") => replay(&args[2..]),
+        Some("api") => api::replay(&args[2..]),
+        Some("random") => rnd::random(&args[2..]),
+        Some("one") => rnd::one(&args[2..]),
+        Some("sh") => {
+            // debugging aid: yv-g12 sh SCRIPT [args...]
+            let o = run::run_script(&args[2], &args[3..]);
+            println!("{}", obs_json(&o));
+        }
+        _ => {
+            eprintln!("usage: yv-g12 replay|api|random|one ...");
+            std::process::exit(2);
+        }
+    }
+    let _ = opt(&args, "--unused");
 }
